@@ -34,10 +34,13 @@ def tagged_db(scope='extended'):
         'Tag/Mid-dle': [era('-', 2011, 'MMT', 'Zone Tag/Mid-dle raw-m1', offset=900, until_month=11, until_day=21, until_secs=10800, suffix='u'),
                         era('PolA', 2015, 'M%sT', 'raw-m2', offset=1800, until_month=6, until_day=5),
                         era(':', 10000, 'MXT', 'raw-m3', offset=2700, rules_delta=1800)],
+        # these two sort one way by name ('-' < '_') and the other way by C++ symbol (Tag_A_a < Tag_A_b)
+        'Tag/A_a': [era('-', 10000, 'UAT', 'Zone Tag/A_a raw-u1', offset=7200)],
+        'Tag/A-b': [era('PolB', 10000, 'H%sT', 'Zone Tag/A-b raw-h1', offset=-36000)],
     }
     rules = {
         'PolB': [rule(1998, 2006, 4, 7, 1, 7200, 3600, 'D', 'Rule PolB raw-b1'), rule(1998, 9999, 10, 7, 0, 7200, 0, 'S', 'Rule PolB raw-b2'),
-                 rule(2007, 9999, 3, 7, 8, 10800, 3600, 'DD', 'Rule PolB raw-b3', suffix='s')],
+                 rule(2007, 9999, 3, 7, 8, 10800, 3600, 'DD', 'Rule PolB raw-b3', suffix='s'), rule(2007, 2009, 11, 7, 1, 7200, 0, 'S', 'Rule PolB raw-b4')],
         'PolA': [rule(2001, 2001, 5, 0, 17, 3600, 1800, 'H', 'Rule PolA raw-a1', suffix='u'), rule(2001, 9999, 9, 1, -20, 0, 0, '-', 'Rule PolA raw-a2')],
     }
     if scope == 'basic':
@@ -53,7 +56,7 @@ def tagged_db(scope='extended'):
         for i in [k for k in range(n) if k % 2] + [k for k in range(n) if not k % 2]:
             out['%s%02d' % (prefix, i)] = ['%s-%02d' % (why, i)] + (['%s-more' % why] if i == 1 else [])
         return out
-    # the sizes of all collections differ (zones 3, policies 2, links 4, rules 5, eras 6, and 7..12 below), so that a
+    # the sizes of all collections differ (zones 5, policies 2, links 4, rules 6, eras 8, and 7, 9..13 below), so that a
     # number in the output says which collection was counted
     return {
         'tz_version': '2099z', 'tz_files': ['fileone', 'filetwo'], 'scope': scope, 'start_year': 2000, 'until_year': 2050,
@@ -61,11 +64,11 @@ def tagged_db(scope='extended'):
         'zones_map': zones, 'rules_map': rules,
         'links_map': {'Tag/Link-one': 'Tag/Zeta', 'Tag/Another': 'Tag/alpha', 'Tag/Third': 'Tag/Zeta', 'Tag/Bee': 'Tag/Mid-dle'},
         'removed_links': coll('Tag/GoneLink', 'why-gone-link', 7),
-        'notable_zones': coll('Tag/NoteZone', 'note-zone', 8),
-        'notable_policies': coll('NotePol', 'note-pol', 9),
-        'notable_links': coll('Tag/NoteLink', 'note-link', 10),
-        'removed_zones': coll('Tag/GoneZone', 'why-gone-zone', 11),
-        'removed_policies': coll('GonePol', 'why-gone-pol', 12),
+        'notable_zones': coll('Tag/NoteZone', 'note-zone', 9),
+        'notable_policies': coll('NotePol', 'note-pol', 10),
+        'notable_links': coll('Tag/NoteLink', 'note-link', 11),
+        'removed_zones': coll('Tag/GoneZone', 'why-gone-zone', 12),
+        'removed_policies': coll('GonePol', 'why-gone-pol', 13),
     }
 
 
